@@ -367,6 +367,11 @@ impl Hypercore {
         }
 
         let byte_range = self.byte_range(index, None).await?;
+        if byte_range.length == 0 {
+            // An empty block occupies no bytes: its offset may lie at or beyond the end of a
+            // data file that `clear` has truncated, so there is nothing to read.
+            return Ok(Some(vec![]));
+        }
 
         // TODO: Generalize Either response stack
         let data = match self.block_store.read(&byte_range, None) {
